@@ -453,6 +453,33 @@ def pinoLabelsOk : Bool :=
     s.labels.any (fun l => l.1 == "token_vault_a_info" && l.2 == "next_mut") &&
     s.labels.any (fun l => l.1 == "token_vault_b_info" && l.2 == "next_mut")
 
+/-- GENERIC back-reference rule over EVERY regenerated accounts struct (fund-moving or not): wherever an existing
+    position account and a whirlpool account appear together, the position is tied to that pool by `has_one`
+    (a struct that CREATES the position — `init` — writes the link itself).  Seed C15b_8 (reset_position_range
+    without the link) showed that the per-instruction tables above covered fund-moving instructions only. -/
+def positionLinkOk (s : AccSpec) : Bool :=
+  match findField s "position", findField s "whirlpool" with
+  | some p, some _ =>
+    p.attrs.any (fun a => a.1 == "init") || p.attrs.any (fun a => a.1 == "has_one" && a.2.1 == "whirlpool")
+  | _, _ => true
+
+/-- likewise: wherever a position and its token account appear together (and the token account is not being
+    created together with the position), the token account is tied to the position's mint and holds exactly one token -/
+def positionTokenLinkOk (s : AccSpec) : Bool :=
+  match findField s "position", findField s "position_token_account" with
+  | some ps, some t =>
+    ps.attrs.any (fun a => a.1 == "init") || t.attrs.any (fun a => a.1 == "init") ||
+    (t.attrs.any (fun a => a.1 == "constraint" && a.2.1 == "position_token_account.mint == position.position_mint") &&
+     t.attrs.any (fun a => a.1 == "constraint" && a.2.1 == "position_token_account.amount == 1"))
+  | _, _ => true
+
+theorem position_links_everywhere : anchorSpecs.all positionLinkOk = true := by decide +kernel
+theorem position_token_links_everywhere : anchorSpecs.all positionTokenLinkOk = true := by decide +kernel
+
+-- the rule is not vacuous: thirteen structs carry both slots (ten existing positions, three creations)
+example : (anchorSpecs.filter fun s => (findField s "position").isSome && (findField s "whirlpool").isSome).length = 13 := by
+  decide +kernel
+
 /-- C15(T1): every pinning attribute required is present in the code. -/
 theorem pin_rows_met : pinRows.all pinOk = true := by decide +kernel
 /-- C15(T2): every slot is of the stated category … -/
